@@ -120,6 +120,12 @@ pub use dsv::{Dsv, DsvConfig, DsvCursor, DsvIndex};
 /// Backward compatibility alias for [`trees`] module.
 ///
 /// Use `succinctly::trees` instead.
+/// Verification hooks: thin wrappers exposing otherwise private kernels so each
+/// dispatch path can be driven directly. Compiled only with feature `verif-hooks`.
+#[cfg(feature = "verif-hooks")]
+#[doc(hidden)]
+pub mod verif_hooks;
+
 #[doc(hidden)]
 pub mod bp {
     pub use crate::trees::*;
